@@ -11,6 +11,7 @@ pub fn families() -> Vec<&'static dyn Family> {
         &rsim::pubsub::PS_PARTIAL,
         &rsim::pubsub::PS_SHUTDOWN,
         &rsim::pubsub::PS_FAIL_RANDOM,
+        &rsim::pubsub::PS_SHUTDOWN_FAIL,
         &rsim::reqrep::RR_CLEAN,
         &rsim::reqrep::RR_WAKE,
         &rsim::reqrep::RR_PARTIAL,
@@ -139,6 +140,7 @@ pub fn plan(property: &str) -> Option<CheckPlan> {
             items: vec![
                 PlanItem { family: &rsim::pubsub::PS_SHUTDOWN, quick: 100_000, thorough: 2_500_000 },
                 PlanItem { family: &rsim::reqrep::RR_SHUTDOWN, quick: 50_000, thorough: 1_500_000 },
+                PlanItem { family: &rsim::pubsub::PS_SHUTDOWN_FAIL, quick: 60_000, thorough: 1_500_000 },
             ],
         }),
         "C08" => Some(CheckPlan {
